@@ -91,6 +91,16 @@ class History:
                           wit)
         self.issued[s] = how
 
+    def _bulk(self, m, d):
+        # both modes of the bulk update: the default one silences unknown keys, the strict one (silent_errors=False) refuses
+        # them - every key used here exists in the message, so the two must do the same
+        self.bulk_calls = getattr(self, "bulk_calls", 0) + 1
+        if self.bulk_calls % 2:
+            m.update_avps(d)
+        else:
+            m.update_avps(d, silent_errors=False)
+            self.acc.counters["strict_bulk_updates"] += 1
+
     def step(self, op):
         from bromelia.avps import SessionIdAVP, AcctMultiSessionIdAVP, OriginHostAVP, OriginRealmAVP
         from bromelia.base import DiameterMessage, DiameterHeader
@@ -138,7 +148,7 @@ class History:
                 m = self.kept.pop(0)
             else:
                 return
-            m.update_avps({"origin_host": ident})
+            self._bulk(m, {"origin_host": ident})
             self.record(m.session_id_avp.data, ident, how)
             self.acc.counters["bulk_updates"] += 1
         elif op.startswith("shr"):
@@ -152,7 +162,7 @@ class History:
             self.record(m.session_id_avp.data, IDS[0], how + "(create)")
             m.append(OriginHostAVP(IDS[0]))
             m.append(OriginRealmAVP("example.org"))
-            m.update_avps(d)
+            self._bulk(m, d)
             self.record(m.session_id_avp.data, ident, how)
             self.acc.counters["bulk_updates"] += 1
             self.acc.counters["shared_dict_updates"] += 1
@@ -169,14 +179,14 @@ class History:
             other = IDS[(int(op[-1]) + 1) % len(IDS)]
             if n % 2:
                 supplied = b"peer.remote.example;1559529822;%d" % n
-                m.update_avps({"session_id": supplied, "origin_host": other} if n % 4 == 1 else {"origin_host": other, "session_id": supplied})
+                self._bulk(m, {"session_id": supplied, "origin_host": other} if n % 4 == 1 else {"origin_host": other, "session_id": supplied})
                 got = m.session_id_avp.data
                 self.acc.counters["bytes_passthrough"] += 1
                 if got != supplied:
                     self.acc.violation("session-id-bytes-altered", "update_avps(session_id=%r, origin_host=%r) left Session-Id %r" % (supplied, other, got),
                                        {"trace": list(self.trace), "start": self.start, "uptime": self.uptime})
             else:
-                m.update_avps({"session_id": ident, "origin_host": other})
+                self._bulk(m, {"session_id": ident, "origin_host": other})
                 self.record(m.session_id_avp.data, ident, how)
             self.acc.counters["bulk_updates"] += 1
         elif op.startswith("upd"):
@@ -187,7 +197,7 @@ class History:
                 m.append(OriginHostAVP(IDS[0]))
                 m.append(OriginRealmAVP("example.org"))
                 self.msg = m
-            self.msg.update_avps({"origin_host": ident})
+            self._bulk(self.msg, {"origin_host": ident})
             sid = [a for a in self.msg.avps if a.get_code() == 263][0].data
             if self.msg.session_id_avp.data != sid:
                 self.acc.observe("named-view-and-list-disagree-after-update_avps")
